@@ -28,6 +28,8 @@ typedef unsigned long long u64;
 static u64 g_h;
 static std::string g_line;  // transcript of the current sequence (only built in dump mode)
 static bool g_dump = false;
+static long g_mirror_fail = 0;         // steps on which an amc container and its std::vector mirror disagreed
+static std::string g_mirror_first;     // the first sequence on which that happened
 static void obs(long x) {
   g_h = (g_h ^ (u64)(x + 0x9e37)) * 1099511628211ULL;
   if (g_dump) {
@@ -121,17 +123,17 @@ struct VecOps {
         case 1: v.push_back(Mk<T>::make(++ctr)); break;
         case 2: { T t = Mk<T>::make(++ctr); ret = Mk<T>::val(v.emplace_back(std::move(t))); } break;
         case 3: if (sz == 0) return false; v.pop_back(); break;
-        case 4: { T t = Mk<T>::make(++ctr); ret = v.insert(v.begin(), t) - v.begin(); } break;
-        case 5: ret = v.insert(v.begin() + mid, Mk<T>::make(++ctr)) - v.begin(); break;
-        case 6: if (sz == 0) return false; ret = v.insert(v.end(), v[(typename V::size_type)mid]) - v.begin(); break;
-        case 7: if (sz == 0) return false; ret = v.emplace(v.begin() + mid, v[(typename V::size_type)(sz - 1)]) - v.begin(); break;
-        case 8: { T t = Mk<T>::make(++ctr); ret = v.insert(v.begin() + mid, 2, t) - v.begin(); } break;  // plain int count: for T = int both arguments are int (count/value vs iterator-pair dispatch)
-        case 9: { std::vector<T> s; s.push_back(Mk<T>::make(++ctr)); s.push_back(Mk<T>::make(++ctr)); ret = v.insert(v.begin() + mid, s.begin(), s.end()) - v.begin(); } break;
-        case 10: { T a = Mk<T>::make(++ctr), b = Mk<T>::make(++ctr); ret = v.insert(v.begin(), {a, b}) - v.begin(); } break;
-        case 11: if (sz == 0) return false; ret = v.erase(v.begin()) - v.begin(); break;
-        case 12: if (sz == 0) return false; ret = v.erase(v.begin() + mid) - v.begin(); break;
-        case 13: ret = v.erase(v.begin() + mid, v.end()) - v.begin(); break;
-        case 14: ret = v.erase(v.begin() + mid, v.begin() + mid) - v.begin(); break;
+        case 4: { T t = Mk<T>::make(++ctr); { typename V::iterator it_ = v.insert(v.begin(), t); ret = it_ - v.begin(); } } break;
+        case 5: { typename V::iterator it_ = v.insert(v.begin() + mid, Mk<T>::make(++ctr)); ret = it_ - v.begin(); } break;
+        case 6: if (sz == 0) return false; { typename V::iterator it_ = v.insert(v.end(), v[(typename V::size_type)mid]); ret = it_ - v.begin(); } break;
+        case 7: if (sz == 0) return false; { typename V::iterator it_ = v.emplace(v.begin() + mid, v[(typename V::size_type)(sz - 1)]); ret = it_ - v.begin(); } break;
+        case 8: { T t = Mk<T>::make(++ctr); { typename V::iterator it_ = v.insert(v.begin() + mid, 2, t); ret = it_ - v.begin(); } } break;  // plain int count: for T = int both arguments are int (count/value vs iterator-pair dispatch)
+        case 9: { std::vector<T> s; s.push_back(Mk<T>::make(++ctr)); s.push_back(Mk<T>::make(++ctr)); { typename V::iterator it_ = v.insert(v.begin() + mid, s.begin(), s.end()); ret = it_ - v.begin(); } } break;
+        case 10: { T a = Mk<T>::make(++ctr), b = Mk<T>::make(++ctr); { typename V::iterator it_ = v.insert(v.begin(), {a, b}); ret = it_ - v.begin(); } } break;
+        case 11: if (sz == 0) return false; { typename V::iterator it_ = v.erase(v.begin()); ret = it_ - v.begin(); } break;
+        case 12: if (sz == 0) return false; { typename V::iterator it_ = v.erase(v.begin() + mid); ret = it_ - v.begin(); } break;
+        case 13: { typename V::iterator it_ = v.erase(v.begin() + mid, v.end()); ret = it_ - v.begin(); } break;
+        case 14: { typename V::iterator it_ = v.erase(v.begin() + mid, v.begin() + mid); ret = it_ - v.begin(); } break;
         case 15: v.resize((typename V::size_type)(sz + 2)); break;
         case 16: v.resize(1); break;
         case 17: { T t = Mk<T>::make(++ctr); v.resize(3, t); } break;
@@ -171,6 +173,107 @@ struct VecOps {
     return true;
   }
   static long live_expected(const V &v) { return (long)v.size() * vf::ObjsPer<T>::value; }
+};
+
+// ---- move-only elements ----------------------------------------------------------------------------------------------------
+/// An element that can only be moved (counts live objects itself).  Every operation of the MoveInsertable-only API is
+/// applied to the amc vector AND to a std::vector mirror; the transcript records whether the two agree, so a wrong
+/// result shows in every build and a configuration-dependent one shows as a transcript difference.  That the whole
+/// alphabet compiles without a copy constructor in every configuration is itself part of the check.
+struct MO {
+  int v;
+  static long &live() {
+    static long n = 0;
+    return n;
+  }
+  MO() : v(0) { ++live(); }
+  explicit MO(int x) : v(x) { ++live(); }
+  MO(MO &&o) noexcept : v(o.v) {
+    o.v = -1;
+    ++live();
+  }
+  MO &operator=(MO &&o) noexcept {
+    v = o.v;
+    if (this != &o) o.v = -1;
+    return *this;
+  }
+  MO(const MO &) = delete;
+  MO &operator=(const MO &) = delete;
+  ~MO() { --live(); }
+};
+template <class AV>
+struct MOPair {
+  typedef MO value_type;
+  AV a;
+  std::vector<MO> m;
+};
+template <class P>
+struct MoveOnlyOps {
+  struct OpDesc {
+    const char *name;
+    int feat;
+  };
+  static const OpDesc *table(int &n) {
+    static const OpDesc t[] = {
+        {"push_back_m", 0}, {"emplace_back", 0}, {"emplace_back_default", 0}, {"pop_back", 0}, {"insert_begin_m", 0}, {"insert_mid_m", 0},
+        {"emplace_mid", 0}, {"erase_begin", 0}, {"erase_mid_to_end", 0}, {"resize_plus2", 0}, {"resize_1", 0}, {"clear", 0}, {"reserve_6", 0},
+        {"shrink_to_fit", 0}, {"swap_tmp", 0}, {"move_assign_tmp", 0}, {"move_construct", 0}, {"insert_mid_move_range2", 0},
+        {"assign_move_range3", 0}, {"pop_back_val", F_EXTRAS}, {"append_move_range2", F_EXTRAS},
+    };
+    n = (int)(sizeof t / sizeof t[0]);
+    return t;
+  }
+  template <class V>
+  static void fill2(V &t, int &ctr) {
+    t.push_back(MO(++ctr));
+    t.push_back(MO(++ctr));
+  }
+  static bool apply(P &p, int op, int &ctr) {
+    const long sz = (long)p.m.size();
+    const long mid = sz / 2;
+    int c2 = ctr;  // the mirror receives the same values
+    long ra = -1, rm = -1;
+    switch (op) {
+      case 0: p.a.push_back(MO(++ctr)); p.m.push_back(MO(++c2)); break;
+      case 1: ra = p.a.emplace_back(++ctr).v; p.m.emplace_back(++c2); rm = p.m.back().v; break;
+      case 2: p.a.emplace_back(); p.m.emplace_back(); break;
+      case 3: if (sz == 0) return false; p.a.pop_back(); p.m.pop_back(); break;
+      case 4: { auto ia_ = p.a.insert(p.a.begin(), MO(++ctr)); ra = ia_ - p.a.begin(); } { auto im_ = p.m.insert(p.m.begin(), MO(++c2)); rm = im_ - p.m.begin(); } break;
+      case 5: { auto ia_ = p.a.insert(p.a.begin() + mid, MO(++ctr)); ra = ia_ - p.a.begin(); } { auto im_ = p.m.insert(p.m.begin() + mid, MO(++c2)); rm = im_ - p.m.begin(); } break;
+      case 6: { auto ia_ = p.a.emplace(p.a.begin() + mid, ++ctr); ra = ia_ - p.a.begin(); } { auto im_ = p.m.emplace(p.m.begin() + mid, ++c2); rm = im_ - p.m.begin(); } break;
+      case 7: if (sz == 0) return false; { auto ia_ = p.a.erase(p.a.begin()); ra = ia_ - p.a.begin(); } { auto im_ = p.m.erase(p.m.begin()); rm = im_ - p.m.begin(); } break;
+      case 8: { auto ia_ = p.a.erase(p.a.begin() + mid, p.a.end()); ra = ia_ - p.a.begin(); } { auto im_ = p.m.erase(p.m.begin() + mid, p.m.end()); rm = im_ - p.m.begin(); } break;
+      case 9: p.a.resize((typename decltype(p.a)::size_type)(sz + 2)); p.m.resize(sz + 2); break;
+      case 10: p.a.resize(1); p.m.resize(1); break;
+      case 11: p.a.clear(); p.m.clear(); break;
+      case 12: p.a.reserve(6); p.m.reserve(6); break;
+      case 13: p.a.shrink_to_fit(); break;
+      case 14: { decltype(p.a) t; std::vector<MO> tm; fill2(t, ctr); fill2(tm, c2); p.a.swap(t); p.m.swap(tm); obs((long)t.size()); obs((long)(t.size() == tm.size())); } break;
+      case 15: { decltype(p.a) t; std::vector<MO> tm; fill2(t, ctr); fill2(tm, c2); p.a = std::move(t); p.m = std::move(tm); obs((long)t.size()); } break;
+      case 16: { decltype(p.a) t(std::move(p.a)); obs((long)p.a.size()); p.a = std::move(t); } break;
+      case 17: { MO s1[2] = {MO(++ctr), MO(++ctr)}, s2[2] = {MO(++c2), MO(++c2)};
+                 { auto ia_ = p.a.insert(p.a.begin() + mid, std::make_move_iterator(s1), std::make_move_iterator(s1 + 2)); ra = ia_ - p.a.begin(); }
+                 { auto im_ = p.m.insert(p.m.begin() + mid, std::make_move_iterator(s2), std::make_move_iterator(s2 + 2)); rm = im_ - p.m.begin(); } } break;
+      case 18: { MO s1[3] = {MO(++ctr), MO(++ctr), MO(++ctr)}, s2[3] = {MO(++c2), MO(++c2), MO(++c2)};
+                 p.a.assign(std::make_move_iterator(s1), std::make_move_iterator(s1 + 3)); p.m.assign(std::make_move_iterator(s2), std::make_move_iterator(s2 + 3)); } break;
+#ifdef AMC_NONSTD_FEATURES
+      case 19: if (sz == 0) return false; { MO r = p.a.pop_back_val(); ra = r.v; rm = p.m.back().v; p.m.pop_back(); } break;
+      case 20: { MO s1[2] = {MO(++ctr), MO(++ctr)}, s2[2] = {MO(++c2), MO(++c2)};
+                 p.a.append(std::make_move_iterator(s1), std::make_move_iterator(s1 + 2)); p.m.insert(p.m.end(), std::make_move_iterator(s2), std::make_move_iterator(s2 + 2)); } break;
+#endif
+      default: return false;
+    }
+    bool same = ra == rm && p.a.size() == p.m.size();
+    for (size_t i = 0; same && i < p.m.size(); ++i) same = p.a[(typename decltype(p.a)::size_type)i].v == p.m[i].v;
+    obs(same ? 1 : 0);  // 1 in every transcript of a correct library
+    if (!same) ++g_mirror_fail;
+    obs(ra);
+    obs((long)p.a.size());
+    obs((long)p.a.capacity());
+    for (const MO &e : p.a) obs(e.v);
+    return true;
+  }
+  static long live_expected(const P &) { return 0; }
 };
 
 // ---- sets ------------------------------------------------------------------------------------------------------------
@@ -326,6 +429,10 @@ static void enumerate_type(const char *cname, int depth) {
           obs(gc.damaged());
         }
       }
+      if (g_mirror_fail && g_mirror_first.empty()) {
+        g_mirror_first = std::string(cname) + ":";
+        for (size_t x = 0; x < seq.size(); ++x) g_mirror_first += std::string(" ") + tab[alpha[seq[x]]].name;
+      }
       if (enabled) {
         obs(vf::L().live());
         obs(vf::L().nfail);
@@ -399,6 +506,13 @@ int main(int argc, char **argv) {
   enumerate_type<V7, VecOps<V7> >("smallvector_blob3_3", depth);
   enumerate_type<V8, VecOps<V8> >("smallvector_blob6_2_u8", depth);
   enumerate_type<V9, VecOps<V9> >("smallvector_blob3_5_stdalloc_u16", depth);
+  // move-only elements, mirrored on std::vector
+  typedef MOPair<amc::vector<MO> > M1;
+  typedef MOPair<amc::SmallVector<MO, 2> > M2;
+  typedef MOPair<amc::FixedCapacityVector<MO, 12> > M3;
+  enumerate_type<M1, MoveOnlyOps<M1> >("vector_moveonly", depth);
+  enumerate_type<M2, MoveOnlyOps<M2> >("smallvector_moveonly_2", depth);
+  enumerate_type<M3, MoveOnlyOps<M3> >("fixedcapacityvector_moveonly_12", depth);
   typedef amc::FlatSet<int> S1;
   typedef amc::FlatSet<vf::TR, std::greater<vf::TR>, amc::allocator<vf::TR>, amc::SmallVector<vf::TR, 2> > S2;
   typedef amc::FlatSet<vf::NTR> S3;
@@ -413,6 +527,14 @@ int main(int argc, char **argv) {
     enumerate_type<Q2, SetOps<Q2, false> >("smallset_NTR_3_flatset", depth);
   }
 #endif
+  if (g_mirror_fail) {
+    std::fprintf(stderr, "move-only container disagrees with its std::vector mirror on %ld steps; first sequence: %s\n", g_mirror_fail, g_mirror_first.c_str());
+    return 3;
+  }
+  if (MO::live() != 0) {
+    std::fprintf(stderr, "%ld move-only elements alive after every container was destroyed\n", MO::live());
+    return 3;
+  }
   if (!g_dump) {
     long total = 0;
     for (size_t i = 0; i < g_buckets.size(); ++i) {
